@@ -97,6 +97,16 @@ Theorem C05_entref_roundtrip : forall s rest,
 Proof. exact entref_roundtrip. Qed.
 Print Assumptions C05_entref_roundtrip.
 
+(* the reader has no failing input: whatever the text (a reference to the code point 0 -
+   "&#0;", "&#;", "&#x;" - included: its '&' is copied verbatim since the repair of
+   C05-xer-entref-nul-abort / C04-xer-charref-zero-assert), the answer is RC_OK when the
+   closing '<' is in the window and RC_WMORE otherwise, and never more is consumed than given *)
+Theorem C05_entref_total : forall acc w,
+  exists k o, (k <= length w)%nat /\
+    entref_step acc w = ((if find_lt w O then OK else MORE), k, acc ++ o).
+Proof. exact entref_total. Qed.
+Print Assumptions C05_entref_total.
+
 (* ---- OER: skipping the open type of an extension addition the reader does not know
    (oer_open_type_skip; full = true: determinant and contents must be in the window, the
    repaired code and X.696; full = false: the code before the repair) *)
